@@ -96,6 +96,8 @@ theorem build_tasks : ∀ (v : View) (st : St), v.core = true → ∀ e, e ∈ (
   | «show» c a b _ _ => intro st hc; simp [View.core] at hc
   | scope sid d kid _ => intro st hc; simp [View.core] at hc
   | forRows en sel lists row _ => intro st hc; simp [View.core] at hc
+  | eb kid _ => intro st hc; simp [View.core] at hc
+  | res c x => intro st hc; simp [View.core] at hc
   | forKeyed sel lists =>
     intro st _ e h
     rw [build_forKeyed] at h ⊢
@@ -307,6 +309,8 @@ theorem render_congr {K : Nat} {ρ ρ' : Nat → Int} (h : ∀ i, i < K → ρ i
     simp only [render, evalPure_congr h sel hw.1.1.1.1]
   | scope sid d kid _ => intro hw; simp [View.wf] at hw
   | forRows en sel lists row _ => intro hw; simp [View.wf] at hw
+  | eb kid _ => intro hw; simp [View.wf] at hw
+  | res c x => intro hw; simp [View.wf] at hw
 
 /-- at an idle point of a state satisfying the leaf invariant the DOM is the fresh render -/
 theorem Inv0.settled {K : Nat} {v : View} {st : St} (h : Inv0 K v st) (hw : v.wf K = true)
